@@ -2,7 +2,7 @@
    written / read, what RSP and RIP become, what is logged, when the step fails - and their relation
    to the ISA specification (the hardware operation conjugated by RSP + 8, KF-C04-stack-convention). *)
 From Coq Require Import ZArith Bool List Lia FunctionalExtensionality.
-From AxV Require Import Bits Outcome Codes Iced State Rt Mem Trace BitsP RegFile RegsP ISA MemP ByteStore
+From AxV Require Import Bits Outcome Codes Iced State Rt Mem Trace BitsP RegFile RegsP ISA MemP ByteStore MovP AluP
   ReadonlyTac QuietTac TraceP CfP StackP RmP.
 From AxG Require Import Flags Regs Operand Helpers I_call I_ret.
 Local Open Scope Z_scope.
@@ -206,3 +206,135 @@ Section RetSpec.
     eapply same_data_trans; [exact SD|]. apply same_data_shift_rip.
   Qed.
 End RetSpec.
+
+(* ---- JMP r/m64 (indirect), exactly ---- *)
+From AxG Require Import I_jmp.
+
+Lemma jump_tail_exact c i tgt s :
+  pre i s ->
+  exists s', (trace_jump c i tgt;;; reg_write_64 c RIP tgt;;; ret tt)%M s = (Ok tt, s') /\
+             same_data s' (set_rip s tgt) /\ recorded i s s' TJump.
+Proof.
+  intros Hpre. destruct (record_from c i tgt TJump s s Hpre eq_refl eq_refl) as (s1 & E & Es1 & X & W1 & W2 & W3).
+  eexists. unfold bind, trace_jump. rewrite E. rewrite rw64_rip. cbn [ret]. split; [reflexivity|]. split.
+  - unfold same_data, set_rip. cbn [regs xmms rflags fs gs mem set_regs]. rewrite Es1. cbn [regs xmms rflags fs gs mem set_trace].
+    repeat split.
+  - unfold recorded. cbn [regs set_regs trace call_stack]. rewrite upd_same.
+    split; [exact X|]. split; [repeat split; assumption|]. rewrite Es1. reflexivity.
+Qed.
+
+Section JmpRm.
+  Variables (c : cfg) (i : instr) (s : mstate).
+  Hypothesis Ec : i_code i = C_Jmp_rm64.
+  Hypothesis Hwf : wf_regs s.
+  Hypothesis HI : Inv (mem s).
+  Hypothesis Hn : 0 < i_op_count i.
+  Hypothesis Hs0 : rm64_shape i 0.
+  Hypothesis Hpre : pre i s.
+
+  (* the target is the 64-bit register or the eight bytes at the operand's address; RIP takes it, one
+     jump event is logged, nothing else changes; an unreadable operand fails the step and changes
+     nothing.  (No canonicity check: KF-C03-noncanonical-target.) *)
+  Theorem jmp_rm64_exact :
+    match read_op i 0 64 s with
+    | Some t => exists s', instr_jmp_rm64 c i s = (Ok tt, s') /\ same_data s' (set_rip s t) /\ recorded i s s' TJump
+    | None => exists e, instr_jmp_rm64 c i s = (Err e, s)
+    end.
+  Proof.
+    unfold instr_jmp_rm64. rewrite Ec.
+    rewrite (bind_ok _ _ _ _ _ (dbg_code_ok c s _ eq_refl)).
+    rewrite <- (bind_assoc (instruction_operand c i 0)). fold (read_rm64 c i 0).
+    pose proof (read_rm64_spec c i s 0 Hwf HI ltac:(lia) Hs0) as RD.
+    destruct (read_op i 0 64 s) as [t|]; [destruct RD as [RD Ht]|destruct RD as [e RD]].
+    - rewrite (bind_ok _ _ _ _ _ RD). exact (jump_tail_exact c i t s Hpre).
+    - exists e. rewrite (bind_err _ _ _ _ _ RD). reflexivity.
+  Qed.
+
+  (* against the specification: the same, minus the #GP on a non-canonical target *)
+  Theorem jmp_rm64_refines :
+    match isa_exec SJmpRm i s with
+    | IDone s1 _ => exists s', instr_jmp_rm64 c i s = (Ok tt, s') /\ same_data s' s1 /\ recorded i s s' TJump
+    | IFault FMem => exists e, instr_jmp_rm64 c i s = (Err e, s)
+    | IFault FBranch => True          (* known finding: the emulator completes the jump *)
+    | IFault _ => False
+    end.
+  Proof.
+    pose proof jmp_rm64_exact as X. cbn [isa_exec]. destruct (read_op i 0 64 s) as [t|]; [|exact X].
+    unfold branch_to. destruct (canonical t); [exact X|exact I].
+  Qed.
+End JmpRm.
+
+(* ---- CALL r/m64 (indirect), exactly ---- *)
+Lemma call_tail_exact c i tgt s :
+  Inv (mem s) -> pre i s ->
+  let F := (_ <- (v_rip <- (reg_read_64 c RIP) ;;
+                  v_rsp <- (reg_read_64 c RSP) ;;
+                  _ <- (mem_write_64 v_rsp v_rip) ;;
+                  _ <- (reg_write_64 c RSP (wsub U64 v_rsp 8)) ;;
+                  ret (tt)) ;;
+            _ <- (trace_call c i tgt) ;;
+            _ <- (reg_write_64 c RIP tgt) ;;
+            _ <- (call_stack_push tgt) ;;
+            ret (tt))%M in
+  match emu_push 8 (regs s RIP) s with
+  | Some s1 => exists s', F s = (Ok tt, s') /\ same_data s' (set_rip s1 tgt) /\ recorded i s s' TCall
+  | None => exists e, F s = (Err e, s)
+  end.
+Proof.
+  intros HI Hpre. cbv zeta. rewrite !bind_assoc.
+  rewrite (bind_ok _ _ _ _ _ (rr64_rip c s)). rewrite !bind_assoc.
+  rewrite (bind_ok _ _ _ _ _ (rr64_rsp c s)). rewrite !bind_assoc.
+  unfold emu_push, store.
+  destruct (write_never_panics (regs s RSP) (le_bytes 8 (regs s RIP)) s HI) as [[s1 E]|[e E]]; rewrite E.
+  - assert (E' : mem_write_64 (regs s RSP) (regs s RIP) s = (Ok tt, s1)) by (rewrite typed_write_64_is_le; exact E).
+    assert (SD : store 8 (regs s RSP) (regs s RIP) s = Some s1) by (unfold store; rewrite E; reflexivity).
+    destruct (store_data _ _ _ _ _ SD) as (D1 & D2 & D3 & D4 & D5 & D6 & D7).
+    rewrite (bind_ok _ _ _ _ _ E'). rewrite !bind_assoc. rewrite (bind_ok _ _ _ _ _ (rw64_rsp c _ s1)).
+    rewrite (bind_ok _ _ _ _ _ (eq_refl : ret tt _ = (Ok tt, _))).
+    set (s2 := set_regs s1 (upd (regs s1) RSP (wsub U64 (regs s RSP) 8))).
+    assert (T2 : trace s2 = trace s) by exact D6.
+    assert (R2 : regs s2 RIP = regs s RIP) by (unfold s2; cbn [regs set_regs]; rewrite D1; reflexivity).
+    destruct (record_from c i tgt TCall s s2 Hpre T2 R2) as (s3 & E3 & Es3 & X & W1 & W2 & W3).
+    unfold trace_call. rewrite (bind_ok _ _ _ _ _ E3). rewrite (bind_ok _ _ _ _ _ (rw64_rip c _ s3)).
+    unfold bind, call_stack_push, ret. eexists. split; [reflexivity|]. split.
+    + unfold same_data, set_rip. cbn [regs xmms rflags fs gs mem set_regs set_call_stack].
+      rewrite Es3. cbn [regs xmms rflags fs gs mem set_trace]. unfold s2. cbn [regs xmms rflags fs gs mem set_regs].
+      repeat split.
+    + unfold recorded. cbn [regs set_regs set_call_stack trace call_stack]. rewrite upd_same.
+      split; [exact X|]. split; [repeat split; assumption|].
+      rewrite Es3. cbn [call_stack set_trace]. unfold s2. cbn [call_stack set_regs]. rewrite D7. reflexivity.
+  - exists e.
+    assert (E' : mem_write_64 (regs s RSP) (regs s RIP) s = (Err e, s)) by (rewrite typed_write_64_is_le; exact E).
+    unfold bind. rewrite E'. reflexivity.
+Qed.
+
+Section CallRm.
+  Variables (c : cfg) (i : instr) (s : mstate).
+  Hypothesis Ec : i_code i = C_Call_rm64.
+  Hypothesis Hwf : wf_regs s.
+  Hypothesis HI : Inv (mem s).
+  Hypothesis Hn : 0 < i_op_count i.
+  Hypothesis Hs0 : rm64_shape i 0.
+  Hypothesis Hpre : pre i s.
+
+  (* the target is read first (an unreadable operand fails the step with nothing changed), then the
+     call proceeds as CALL rel32 does *)
+  Theorem call_rm64_exact :
+    match read_op i 0 64 s with
+    | Some t =>
+        match emu_push 8 (regs s RIP) s with
+        | Some s1 => exists s', instr_call_rm64 c i s = (Ok tt, s') /\ same_data s' (set_rip s1 t) /\ recorded i s s' TCall
+        | None => exists e, instr_call_rm64 c i s = (Err e, s)
+        end
+    | None => exists e, instr_call_rm64 c i s = (Err e, s)
+    end.
+  Proof.
+    unfold instr_call_rm64. rewrite Ec.
+    rewrite (bind_ok _ _ _ _ _ (dbg_code_ok c s _ eq_refl)).
+    rewrite <- (bind_assoc (instruction_operand c i 0)). fold (read_rm64 c i 0).
+    pose proof (read_rm64_spec c i s 0 Hwf HI ltac:(lia) Hs0) as RD.
+    destruct (read_op i 0 64 s) as [t|]; [destruct RD as [RD Ht]|destruct RD as [e RD]].
+    - rewrite (bind_ok _ _ _ _ _ RD). exact (call_tail_exact c i t s HI Hpre).
+    - exists e. rewrite (bind_err _ _ _ _ _ RD). reflexivity.
+  Qed.
+End CallRm.
